@@ -1044,6 +1044,22 @@ class PackageGenerator:
         mp_.all_classes += ["Pool2"]
         mp_.public_classes += ["Pool2"]
 
+        # the same class name in equally named modules of two sub-packages (orders/models.py and users/models.py both define
+        # Config), each used as a type by another module (added last, no random draws)
+        mo1 = self.new_module(f"{top}.orders", "models")
+        mo1.body.append("class Config:\n    retries: int = 3\n\n    def order_limit(self) -> int:\n        ...\n\n\nclass Order:\n    cfg: Config\n")
+        mo2 = self.new_module(f"{top}.users", "models")
+        mo2.body.append("class Config:\n    locale: str = \"en\"\n\n    def user_name(self) -> str:\n        ...\n")
+        for m_ in (mo1, mo2):
+            m_.all_classes += ["Config"]
+            m_.public_classes += ["Config"]
+        ms1 = self.new_module(top, "service_orders")
+        ms1.add_import(f"from {mo1.qname} import Config")
+        ms1.body.append("def place(cfg: Config) -> Config:\n    ...\n\n\nclass OrderService(Config):\n    pass\n")
+        ms2 = self.new_module(top, "service_users")
+        ms2.add_import(f"from {mo2.qname} import Config")
+        ms2.body.append("def greet(cfg: Config) -> Config:\n    ...\n")
+
         # --- files
         files: dict[str, str] = {}
         for pk, lines in self.inits.items():
